@@ -276,7 +276,7 @@ impl Property for C01 {
         "C01"
     }
     fn rule(&self) -> String {
-        "networks with 1..3 inputs, 1..3 linear layers of width 1..4 (dyadic weights; ~10% raw floating-point weights), each neuron independently followed by none/ReLU/leaky ReLU (alpha in {0, 1/2, -1, 2, 1/8})/hard tanh/hard sigmoid, optional argmax or class head, optional linear layer after the head, precondition none / generated polytope (full-dimensional, lower-dimensional or empty) given as from_poly(P, identity, None); biases planted so that pre-activations hit breakpoints exactly at forward-propagated anchor points; duplicated output rows for argmax ties. The distilled tree is compared with the network's textbook semantics on ALL full-dimensional linear regions by exact LP (reference = composition of the definitions) and by evaluate() at anchors, lattice neighbours and free lattice points, undefinedness outside the precondition included, with NO thin exemption. Non-trivial = >= 2 activated neurons, >= 2 full-dimensional cells and >= 1 input exactly on a breakpoint/tie (float regime: the first two); distinct = distinct serialised cases".into()
+        "networks with 1..3 inputs, 1..3 linear layers of width 1..4 (dyadic weights; ~10% raw floating-point weights), each neuron independently followed by none/ReLU/leaky ReLU (alpha in {0, 1/2, -1, 2, 1/8})/hard tanh/hard sigmoid, optional argmax or class head, optional linear layer after the head, precondition none / generated polytope (full-dimensional, lower-dimensional or empty) given as from_poly(P, identity, None); biases planted so that pre-activations hit breakpoints exactly at forward-propagated anchor points; duplicated output rows for argmax ties; 2.5 % of the exact networks have a wide hidden layer (16-24 neurons, at most 3 activated). The distilled tree is compared with the network's textbook semantics on ALL full-dimensional linear regions by exact LP (reference = composition of the definitions) and by evaluate() at anchors, lattice neighbours and free lattice points, undefinedness outside the precondition included, with NO thin exemption. Non-trivial = >= 2 activated neurons, >= 2 full-dimensional cells and >= 1 input exactly on a breakpoint/tie (float regime: the first two); distinct = distinct serialised cases".into()
     }
     fn assumptions(&self) -> Vec<String> {
         vec![
